@@ -10,7 +10,7 @@
 //   - sentinel variations, broken pairing, PC spellings, relocations;
 //   - synthetic reports and random bytes.
 //
-// Case kinds (one record = child-sentinel text status pcs frames16 enc16 name):
+// Case kinds (one record = child-sentinel text status pcs frames16 enc16 name DecodeStack(name)):
 //
 //	name  <tag> record
 //	real  <kind> record expected-known expected-match
@@ -108,13 +108,13 @@ func record(text string) (fields []string, pcs []uintptr, name string, ok bool) 
 		}
 		fields = append(fields, HS(counter.EncodeStack(p16, "crash/crash")))
 	}
-	fields = append(fields, HS(name))
+	fields = append(fields, HS(name), HS(counter.DecodeStack(name)))
 	return fields, pcs, name, true
 }
 
 // ---------------------------------------------------------------- real crashes
 
-var kinds = []string{"longmsg", "longnames", "longnames-mixed", "nil", "panic", "index", "map", "inlined", "method", "generic", "goroutine", "deep16", "deep", "deadlock"}
+var kinds = []string{"generic-chain", "longmsg", "longnames", "longnames-mixed", "nil", "panic", "index", "map", "inlined", "method", "generic", "goroutine", "deep16", "deep", "deadlock"}
 
 type realCrash struct {
 	kind     string
@@ -323,6 +323,38 @@ func longNameReport() string {
 		ls = append(ls, "some.symbol("+junk(rnd.Intn(2))+")", fmt.Sprintf("\t/src/x.go:1 +0x1 fp=0x1 sp=0x2 pc=0x%x", pc))
 	}
 	ls = append(ls, "", "goroutine 2 [sleep]:", "x()", "\t/x.go:1 pc=0x1")
+	return strings.Join(ls, "\n")
+}
+
+// genericReport: a synthetic report over REAL pcs of a stack in which instantiated
+// generic functions (named pkg.F[...]) are followed outwards by functions of
+// the same package, and by functions of other shapes.
+func genericReport() string {
+	var pcs []uintptr
+	leaf := func() {
+		buf := make([]uintptr, 64)
+		n := runtime.Callers(1, buf)
+		pcs = append(pcs, buf[:n]...)
+	}
+	switch rnd.Intn(3) {
+	case 0:
+		plainCaller(1+rnd.Intn(4), leaf)
+	case 1:
+		generic[string]("x", func(string) int { return plainCaller(rnd.Intn(3), leaf) })
+	default:
+		(&box{}).viaGeneric(1+rnd.Intn(3), leaf)
+	}
+	if a := rnd.Intn(3); a < len(pcs) {
+		pcs = pcs[a:]
+	}
+	if len(pcs) > 3 && rnd.Chance(50) {
+		pcs = pcs[:len(pcs)-rnd.Intn(3)]
+	}
+	ls := []string{fmt.Sprintf("sentinel %x", childSentinel), "panic: " + junk(2), "", "goroutine 1 [running]:"}
+	for _, pc := range pcs {
+		ls = append(ls, "some.symbol("+junk(rnd.Intn(2))+")", fmt.Sprintf("\t/src/x.go:1 +0x1 fp=0x1 sp=0x2 pc=0x%x", pc))
+	}
+	ls = append(ls, "")
 	return strings.Join(ls, "\n")
 }
 
@@ -766,6 +798,8 @@ func main() {
 			sy := synth()
 			emit("synthetic", sy)
 			emit("long-line-synthetic", withLongLine(sy))
+		case i%10 == 6: // real pcs of generic instantiations followed by same-package callers
+			emit("generic-names", genericReport())
 		case i%10 == 3: // real pcs of long-named functions: names near / beyond the limit
 			emit("long-names", longNameReport())
 		case r < 8: // projection-preserving rewrites of a real report
